@@ -57,10 +57,13 @@ def _clones(orig):
     return [v for v in gridders.LOG.values() if v["obj"] is not orig and v["obj"].ident == orig.ident]
 
 
-def _dataset(ctx, n, ncomp, weighted, shape=None):
+def _dataset(ctx, n, ncomp, weighted, shape=None, fortran=False):
     sh = shape or (n,)
     e, no = ctx.reals("e", sh), ctx.reals("n", sh)
     data = [ctx.reals("d%d" % c, sh) for c in range(ncomp)]
+    if fortran:
+        # same logical contents, column-major memory for the data only (coordinates stay C-ordered)
+        data = [np.asfortranarray(d) for d in data]
     weights = None
     if weighted:
         weights = [ctx.reals("w%d" % c, sh) for c in range(ncomp)]
@@ -91,7 +94,7 @@ def h_cross_val_score(ctx):
     gridders.reset()
     n, ncomp = cfg["n"], cfg.get("ncomp", 1)
     sh = tuple(cfg["shape"]) if cfg.get("shape") else (n,)
-    e, no, data, weights = _dataset(ctx, n, ncomp, cfg.get("weighted", False), sh)
+    e, no, data, weights = _dataset(ctx, n, ncomp, cfg.get("weighted", False), sh, cfg.get("fortran", False))
     scoring = cfg.get("scoring")
     # rows (and the clone of each split) are identified by their easting in the replay: pairwise distinct
     fl = list(e.ravel())
@@ -197,7 +200,7 @@ def h_train_test_split(ctx):
     cfg = ctx.cfg
     n, ncomp = cfg["n"], cfg.get("ncomp", 1)
     sh = tuple(cfg.get("shape", (n,)))
-    e, no, data, weights = _dataset(ctx, n, ncomp, cfg.get("weighted", False), sh)
+    e, no, data, weights = _dataset(ctx, n, ncomp, cfg.get("weighted", False), sh, cfg.get("fortran", False))
     darg = tuple(data) if ncomp > 1 else data[0]
     warg = None if weights is None else (tuple(weights) if ncomp > 1 else weights[0])
     # rows are identified by their easting in the replay: pairwise distinct
@@ -328,6 +331,7 @@ def _cfg_cvs(tier, seed):
         {"n": 5, "cv": "kfold", "n_splits": 2, "seed": 3, "scoring": "neg_mean_squared_error", "weighted": True, "ncomp": 2},
         {"n": 4, "cv": "shuffle", "n_splits": 2, "seed": 1, "scoring": "r2", "weighted": True, "delayed": True, "shape": (2, 2)},
         {"n": 5, "cv": "kfold", "n_splits": 2, "seed": 2, "scoring": "neg_mean_absolute_error", "weighted": True},
+        {"n": 6, "cv": "kfold", "n_splits": 2, "seed": 4, "scoring": "neg_mean_squared_error", "weighted": True, "shape": (2, 3), "fortran": True},
     ]
     if tier == "quick":
         return q
@@ -354,7 +358,7 @@ HARNESSES = [
     Harness(
         "train_test_split",
         h_train_test_split,
-        lambda tier, seed: [{"n": 5, "seed": 0, "ncomp": 2, "weighted": True}, {"n": 4, "seed": 1, "shape": (2, 2)}, {"n": 5, "seed": 2, "members": [0, 3, 3, 1, 0], "bshape": (2, 2), "test_size": 0.34, "weighted": True}] + ([{"n": 6, "seed": seed, "members": [0, 3, 2, 1, 0, 3], "bshape": (2, 2), "test_size": 0.5, "ncomp": 2}] if tier == "thorough" else []),
+        lambda tier, seed: [{"n": 5, "seed": 0, "ncomp": 2, "weighted": True}, {"n": 4, "seed": 1, "shape": (2, 2)}, {"n": 6, "seed": 3, "shape": (2, 3), "fortran": True, "weighted": True}, {"n": 5, "seed": 2, "members": [0, 3, 3, 1, 0], "bshape": (2, 2), "test_size": 0.34, "weighted": True}] + ([{"n": 6, "seed": seed, "members": [0, 3, 2, 1, 0, 3], "bshape": (2, 2), "test_size": 0.5, "ncomp": 2}] if tier == "thorough" else []),
         bounds="4-6 symbolic rows, 1-2 components, weights or none; random and blocked (2x2 blocks, enumerated membership) splits with concrete seeds",
         stubs=["block_split -> C08 contract"],
         extra_globals=_globals,
